@@ -5,14 +5,14 @@ EXTENDS Decoders, IOUtils
 Rec == ndJsonDeserialize(IOEnv.TRACE)
 VARIABLES l, nviol
 tvars == <<case, l, nviol>>
-TraceInit == case = [stage |-> "frame", mut |-> "valid", size |-> "tiny"] /\ l = 1 /\ nviol = 0
+TraceInit == case = [stage |-> "frame", mut |-> "valid", size |-> "tiny", prior |-> "fresh"] /\ l = 1 /\ nviol = 0
 Flag(k, kind) == PrintT(<<"VIOL", k, l, {"C06"}, kind>>) /\ nviol' = nviol + 1
 Check(e) ==
     IF e.ev # "stage" THEN nviol' = nviol
-    ELSE LET c == [stage |-> e.stage, mut |-> e.mut, size |-> e.size] IN
-         IF e.outcome \in {"panic", "abort", "timeout"} THEN Flag(e.case, e.stage \o "_" \o e.outcome)
+    ELSE LET c == [stage |-> e.stage, mut |-> e.mut, size |-> e.size, prior |-> e.prior] IN
+         IF e.outcome \in {"panic", "abort", "timeout"} THEN Flag(e.case, e.stage \o "_" \o e.outcome \o (IF e.prior = "fresh" THEN "" ELSE "_" \o e.prior))
          ELSE IF e.outcome \notin Allowed(c) THEN Flag(e.case, e.stage \o "_" \o e.mut \o "_" \o e.outcome \o "_not_allowed")
-         ELSE IF e.outcome = "ok" /\ c.mut = "valid" /\ ~e.eq THEN Flag(e.case, e.stage \o "_valid_input_decoded_to_wrong_value")
+         ELSE IF e.outcome = "ok" /\ c.mut = "valid" /\ ~e.eq THEN Flag(e.case, e.stage \o "_valid_input_decoded_to_wrong_value" \o (IF e.prior = "fresh" THEN "" ELSE "_" \o e.prior))
          ELSE IF e.alloc > AllocBound(e.inlen, e.outlen) THEN Flag(e.case, e.stage \o "_allocation_unrelated_to_input_size")
          ELSE nviol' = nviol
 TraceNext == /\ l <= Len(Rec) /\ l' = l + 1 /\ UNCHANGED case /\ Check(Rec[l])
